@@ -136,6 +136,7 @@ pub fn suites(check: &str, thorough: bool) -> (Vec<SeqSuite>, String) {
                             a.push(Op::NewHandle(side, c));
                         }
                         a.push(Op::DropHandle(side));
+                        a.push(Op::DropHandleUnwinding(side));
                         a.push(Op::Close(side));
                     }
                     a
@@ -222,6 +223,7 @@ pub fn suites(check: &str, thorough: bool) -> (Vec<SeqSuite>, String) {
                         Op::FStream(0),
                         Op::Poll(0, 0),
                         Op::Poll(0, 1),
+                        Op::StreamIsTerm(0),
                         Op::FDrop(0),
                         Op::TrySend,
                         Op::FSend(1),
@@ -299,7 +301,7 @@ impl Shape {
                     self.hr += 1
                 }
             }
-            Op::DropHandle(side) => {
+            Op::DropHandle(side) | Op::DropHandleUnwinding(side) => {
                 if any_live {
                     return false;
                 }
@@ -328,6 +330,11 @@ impl Shape {
             }
             Op::Poll(s, _) => {
                 if self.live[s as usize] == 0 {
+                    return false;
+                }
+            }
+            Op::StreamIsTerm(s) => {
+                if self.live[s as usize] != 3 {
                     return false;
                 }
             }
